@@ -10,7 +10,7 @@ equality with the XML form.
 """
 import ast
 
-from ..astutil import local_aliases, xtext, value_cases, calls_in, call_name, where, truthiness_tests
+from ..astutil import local_aliases, xtext, value_cases, calls_in, call_name, where, truthiness_tests, kw
 from ..cfg import build_cfg
 from ..symtext import Expander, effect_calls
 from ..model import canonical_name
@@ -172,6 +172,12 @@ def run(prog, rep):
         rep.check(good, "TAB-7", "%s validates keys against odmlfmt.%s" % (root.name, fname), "ok",
                   "%s does not validate its keys against the %s table: %s" % (root.name, fname, [t0 for _, _, t0 in calls]), root.where,
                   witness="a key of another object kind is accepted / a valid key refused")
+        if not maps:
+            # the mapping moved into a helper that is handed the format object: read the helper's call with the actual arguments put in
+            for e in effect_calls(prog, root, lambda c: isinstance(c.func, ast.Attribute) and c.func.attr == "map", expanded=True):
+                ft = unparse(e.call.func)
+                if ft.startswith("odmlfmt.") and ft.endswith(".map"):
+                    maps.append(ft)
         good = bool(maps) and all(m0 == "odmlfmt.%s.map" % fname for m0 in maps)
         rep.check(good, "TAB-7", "%s maps keys through odmlfmt.%s.map" % (root.name, fname), "ok",
                   "%s maps keys through another table: %s" % (root.name, maps), root.where)
@@ -278,6 +284,19 @@ def run(prog, rep):
                       and any(unparse(t) == "%s.parsed_doc" % me for t in n.targets)]
             for st in stores:
                 fn = call_name(st.value) if isinstance(st.value, ast.Call) else unparse(st.value)
+                if fn in f.params and f is not f0:
+                    # the decoder is a parameter of a private helper: what its callers pass
+                    idx = f.params.index(fn) - (1 if f.has_self else 0)
+                    passed = set()
+                    for cf in private_closure(f0):
+                        for c in calls_in(cf.node):
+                            if unparse(c.func).split(".")[-1] == f.name:
+                                a = c.args[idx] if 0 <= idx < len(c.args) else kw(c, fn, None)
+                                passed.add(unparse(a) if a is not None else "?")
+                    if passed and passed <= set(["yaml.safe_load", "json.load", "json.loads"]):
+                        fn = sorted(passed)[0]
+                    elif passed:
+                        fn = "|".join(sorted(passed))
                 rep.check(fn in ("yaml.safe_load", "json.load", "json.loads"), "SIB-3",
                           "%s: self.parsed_doc = %s(...)" % (name, fn), "plain parser call",
                           "self.parsed_doc is computed by %s" % fn, where(f, st))
@@ -360,7 +379,14 @@ def run(prog, rep):
     handled = set()
     for c in calls_in(ser.node):
         if call_name(c) == "isinstance" and len(c.args) == 2:
-            for e0 in (c.args[1].elts if isinstance(c.args[1], ast.Tuple) else [c.args[1]]):
+            types = c.args[1]
+            # the class tuple kept in a class level constant (self._TYPES / Cls._TYPES) or a module level one
+            if isinstance(types, ast.Attribute) and isinstance(types.value, ast.Name) and ser.cls is not None \
+                    and types.value.id in (ser.params[0] if ser.params else "self", ser.cls.name, "cls") and ser.cls.lookup_attr(types.attr) is not None:
+                types = ser.cls.lookup_attr(types.attr)
+            elif isinstance(types, ast.Name) and len(ser.module.assigns.get(types.id, [])) == 1:
+                types = ser.module.assigns[types.id][0]
+            for e0 in (types.elts if isinstance(types, ast.Tuple) else [types]):
                 handled.add(canonical_name(prog, ser, e0))
     for t in ("datetime.datetime", "datetime.date", "datetime.time"):
         rep.check(t in handled, "SER-1", "JSON serialiser handles %s" % t, "ok", "%s values make json.dumps raise" % t, ser.where,
